@@ -695,6 +695,8 @@ class Expression(Element, ABC):
         if isinstance(expression, One):
             return self
         elif isinstance(expression, Fraction):
+            if isinstance(expression.numerator, One):
+                return self * expression.denominator
             return Fraction(self * expression.denominator, expression.numerator)
         else:
             return Fraction(self, expression)
@@ -1219,7 +1221,8 @@ class Sum(Expression):
         return self
 
     def _get_key(self):  # type:ignore
-        return 1, *self.expression._get_key()  # type:ignore
+        # the ranges break ties between sums over the same expression
+        return 1, *self.expression._get_key(), tuple(v.name for v in self._get_sorted_ranges())  # type:ignore
 
     def _get_sorted_ranges(self) -> Sequence[Variable]:
         return sorted(self.ranges, key=attrgetter("name"))
@@ -1538,7 +1541,12 @@ class QFactor(Expression):
         return functools.partial(cls.safe, codomain=codomain)
 
     def _get_key(self):  # type:ignore
-        return -5, min(v.name for v in self.domain), min(v.name for v in self.codomain)
+        return (
+            -5,
+            min(v.name for v in self.domain),
+            min(v.name for v in self.codomain),
+            self.to_y0(),  # breaks ties between Q factors with the same smallest names
+        )
 
     def _sorted_codomain(self) -> list[Variable]:
         return sorted(self.codomain, key=attrgetter("name"))
